@@ -21,7 +21,9 @@ CHECKS = {
  "C02": ("Scheduler", "6 C02", "TLC checks over a window alphabet (start -2..3, end incl. end<start and forever, freq 1..3), clocks 0..7, late registration "
          "and requests of 1..3 steps that the code's window test equals the declarative one, that a timestep runs exactly the eligible systems and "
          "that the clock moves by one per step only at the end of a step (negative control: t % freq). Window sweeps and random histories through "
-         "Model.execute(n) / execute_systems are recorded from the real code and validated by TLC event by event (run events carry the clock seen)."),
+         "Model.execute(n) / execute_systems are recorded from the real code and validated by TLC event by event (run events carry the clock seen). Liveness (no state constraint, fair scheduler "
+         "steps): every request of n timesteps is worked off (C02_RequestEnds; negative control without fairness); its implementation side is the driver "
+         "programs' budget - a program that does not end is a reported `runaway` event."),
  "C05": ("Scheduler", "6 C05", "TLC explores every script (remove each/self, add new/twin at each level, complete) at every position over 3-4 systems x 2 levels "
          "with the snapshot iteration of the repaired code (1.2M-28M states) and checks NoRerun/StayersOnce/StayersOrder/RunOnlyRegistered at every EndStep; "
          "the original live-list iteration is the negative control. The same scenario product and random mutating histories are executed on the real "
@@ -34,7 +36,9 @@ CHECKS = {
          "break of the mirror is caused by one of the named deviation actions F1/F2/F3/F6 (known findings; negative controls). Graph walks and random histories in "
          "plain/continuous/grid/line/2-D worlds are judged by TLC: the listing, its 'none' form and the environment order must equal the specification state after "
          "every call; traces needing only listed deviations print KNOWN-FINDING, anything else is a violation. The population and listing operations recorded by "
-         "the tracer while the repository's tests run are validated transition-wise (Population_Suite.tla)."),
+         "the tracer while the repository's tests run are validated transition-wise (Population_Suite.tla). Histories that use the low-level "
+         "register/deregister calls on their own (also on agents that are not resident) are validated too: what such a call does to the mirror is tagged RAW "
+         "and tolerated, every later operation must be the specification's step from the state reached (World!JoinHalfway)."),
  "C04": ("World", "6 C04", "TLC explores join/leave/lookup with every error path (duplicate id, unknown id, out-of-bounds placement per axis and side) enabled in every "
          "reachable state of plain, continuous and grid worlds (rejected actions are UNCHANGED vars by construction; one-per-id, leave-always-enabled as invariants). "
          "Every edge of the error-injection graph is replayed on real environments with lookups of every id after each step; TLC compares len/iteration/lookup/listing "
@@ -81,7 +85,8 @@ CHECKS = {
          "order, error surfaces (negative control: dropped failure). Real batch_run calls on a self-identifying fixture model (records carry the parameters "
          "and the timesteps seen; empty record lists; two collectors) over random grids, repetitions, limits, process counts 1..cores with perturbed "
          "durations and a failing execution at every position; TLC compares the returned list (as sequence for one process, as bag otherwise) with "
-         "RunRecords of every task, or demands the error."),
+         "RunRecords of every task, or demands the error. Liveness: with fair workers every batch ends, with all results or with the error (C15_BatchEnds; a "
+         "batch that does not end in its own fresh interpreter is a reported runaway program)."),
  "C16": ("Batch", "6 C16", "Batch.tla: aggregates as exact rationals, BestIdx = first optimum, and the code's selection loop; TLC checks loop = BestIdx for every score table "
          "3x2 over {-2,0,1,2} with sentinel 1 x 8 modes (32k cases; negative control: sentinel-initialised loop = repaired defect D8). Real grid_search calls "
          "with table-driven score functions scaled by 1, 1/4 and 2**61 (beyond sys.maxsize), ties, every optimum position, processes 1,2,4(..cores); TLC checks "
@@ -96,7 +101,8 @@ CHECKS = {
          "what was called, whether it was handed the decoded model and how many systems/agents the model contained; TLC checks log = documented lifecycle "
          "for all 13188 descriptions with <= 2 systems and <= 2 groups of 0..2 agents and every hook subset (negative control: agents added after the loop). "
          "Exhaustive binding: each of those descriptions (plus random larger ones) is written to a JSON file and decoded by the real JsonDecoder with recording "
-         "fixture classes, repeatedly and from two files in one process; TLC compares the recorded log and the final model with ExpectedLog(desc)."),
+         "fixture classes, repeatedly and from two files in one process (entries with and without `module`, classes of one name in two modules); TLC compares "
+         "the recorded log and the final model with ExpectedLog(desc). Liveness: decoding ends for every description (C18_Ends)."),
  "C07": ("Determinism", "6 C07", "Determinism.tla states C07 as a 2-safety property: two copies with the same seed interleaved with ambient perturbations and another model, "
          "generator uninterpreted (TLC enumerates all draw functions); own-generator draws keep the trajectories equal, ambient draws (negative control) do not. "
          "Binding: TLC's graph supplies interleaving schedules; scripted stochastic models (plain/grid/continuous, random picks, shuffles, moves, births and "
@@ -137,7 +143,7 @@ def main():
         "not_applicable": na,
         "notes": "Exit codes: 0 held, 1 violation (VIOLATION line), 2 machinery failure. known_findings.json lists recorded findings and repaired defects. "
                  "`./check drift` (not registered for any property, never alarms) covers behaviour outside the listed properties: composition of "
-                 "Scheduler and World, deprecated aliases as refinements, further public API. seeded/ holds 240 independently produced breaking "
+                 "Scheduler and World, deprecated aliases as refinements, further public API. seeded/ holds 320 independently produced breaking "
                  "changes with their demonstrations and the outcome of the checks on each (tools/seedcheck.py).",
     }
     with open(os.path.join(VERIF, "MANIFEST.json"), "w") as f:
